@@ -1,4 +1,6 @@
 """C02 -- rejection keeps sample i iff exp(ll_i - max ll) > u_i; rows unaltered, in order."""
+import numpy as np
+
 from sim import oracles, tape
 from sim.oracles import Violation
 
@@ -76,6 +78,8 @@ def judge_rejection(dep, rec, L, prop, probes):
     if any(x < 0 or x >= N for x in E):
         v.append(Violation(prop, prop + ".evaluated-values", sig + ":likelihood-evaluated-on-values-that-are-not-library-rows", "the batch handed to the likelihood holds %d row(s) whose nonlinear values match no library row (converted as pack() does)" % sum(1 for x in E if x < 0 or x >= N)))
         return v, info
+    if A.randomize and A.parent_perm and np.isscalar(A.parent_perm[0].get("a")) and int(A.parent_perm[0]["a"]) != N:
+        v.append(Violation(prop, prop + ".shuffle", sig + ":shuffle-drawn-over-a-population-that-is-not-the-library", "rng.choice over %s items, the library has %d rows" % (A.parent_perm[0]["a"], N)))
     if A.randomize and A.perm is not None:
         allp = [int(x) for x in A.perm]
         perm = allp[: len(E)]
@@ -108,7 +112,6 @@ def judge_rejection(dep, rec, L, prop, probes):
     ll = sampling.lstar_for(A, L, E) if len(E) else []
     info["ll"] = ll
     info["E"] = E
-    import numpy as np
 
     if rec["raised"] is not None:
         if len(E) and (np.any(np.isnan(ll)) or not np.any(np.isfinite(ll))):
